@@ -47,6 +47,7 @@ func init() {
 			{ID: "C15-R24", Title: "the equality walk compares the sizes itself", Floor: 1, Run: theWalkComparesTheSizesItself},
 			{ID: "C15-R25", Title: "containers say themselves whether they are empty", Floor: 5, Run: containersSayThemselvesWhetherTheyAreEmpty},
 			{ID: "C15-R26", Title: "membership does not round the probe", Floor: 1, Run: membershipDoesNotRoundTheProbe},
+			{ID: "C15-R27", Title: "a case for a type can be reached by a value of that type", Floor: 20, Run: aCaseForATypeCanBeReachedByAValueOfThatType},
 		},
 	})
 }
